@@ -15,6 +15,7 @@ from vf.gen import docs as D
 from vf.gen import grammar as G
 from vf.gen import trivia as T
 from vf.model import attrs as A
+from vf.model import names as N
 from vf.props import c05 as base
 from vf.props import edit_common as E
 
@@ -165,6 +166,14 @@ def gen_command(r, text, op_kw, flags):
             return ["test"], "test"
         return ([op, path, value] if op == "set" else [op, path]), "edit:" + cls
     y = r.random()
+    if view.valid and view.core is not None and y < 0.5:
+        # names that must be quoted (C12's critical classes), spelled with raw characters or with NPath escapes
+        nm = r.choice(["b\n", "a b", "x\ty", 'q"r', "é", "a.b", "${x}", "1st", "if", "back\\slash", "", "-", "a\nb", "tab\t"])
+        seg = N.encode_segment(nm)
+        if r.random() < 0.5:
+            seg = seg.replace("\n", "\\n").replace("\t", "\\t")
+        path = (r.choice(["", "", "new."]) + seg)
+        return ["set", path, r.choice(["1", '"v"', "[ ]"])], "edit:hard-name"
     if y < 0.4:
         return ["set", r.choice(["a..b", 'a."b', "", "@", "a b"]) or "a..b", "1"], "bad-path"
     if y < 0.7:
